@@ -125,6 +125,10 @@ def gen_case(rng, index, tier):
                         top_states={}, alt_states={},
                         trash_volumes_env=rng.random() < 0.4)
     uid = L.uid
+    if tv and rng.random() < 0.2:
+        # the volume is mounted read-only (as statvfs reports it): what was
+        # planted before it was mounted is as untrustworthy as ever
+        L.extra['ro_volumes_rel'] = [tv]
     top = L.vol_path(tv, '.Trash')
     realtop = top
     if state == 'sticky':
